@@ -328,9 +328,16 @@ pub fn check(prop: &str, tier: &str) -> i32 {
                 capmsg = Some(format!("time share {:.0} s used up in scenario {} with {} schedules still queued", per_sc_cap, sc.name, work.len()));
                 break;
             }
-            let batch: Vec<Vec<usize>> = work.drain(..work.len().min(120)).collect();
+            let batch: Vec<Vec<usize>> = work.drain(..work.len().min(60)).collect();
             let items: Vec<Item> = batch.iter().map(|p| Item { sc: sc.clone(), prefix: p.clone() }).collect();
-            let (outs, _c, errs) = cluster::in_children(&items, 60, 1e9, &|dir, it| run_item(dir, it));
+            // the scenario's time share also bounds the batch (checked between child processes);
+            // schedules of a batch that were not executed are counted as still queued
+            let left = (per_sc_cap - ts.elapsed().as_secs_f64()).max(1.0);
+            let (outs, c, errs) = cluster::in_children(&items, 20, left, &|dir, it| run_item(dir, it));
+            if c.is_some() {
+                let undone = outs.iter().filter(|o| o.is_none()).count();
+                capmsg = Some(format!("time share {:.0} s used up in scenario {} with {} schedules still queued", per_sc_cap, sc.name, work.len() + undone));
+            }
             errors.extend(errs);
             for (it, o) in items.iter().zip(outs.iter()) {
                 let Some(o) = o else { continue };
